@@ -78,7 +78,14 @@ def framework_tables(spec):
             if a in names:
                 T.loc[a, b] = ">" if what == ">" else ", ".join(what)
         T.insert(0, ty, T.index)
-        trans.append(T.reset_index(drop=True))
+        T = T.reset_index(drop=True)
+        sp = spec.get("split_transitions")
+        if sp and ty == types[0] and 0 < sp["k"] < len(names):
+            # the transition matrix of one population type may be given as several blocks (here: two, split by rows, in either order)
+            blocks = [T.iloc[: sp["k"]].reset_index(drop=True), T.iloc[sp["k"] :].reset_index(drop=True)]
+            trans.extend(reversed(blocks) if sp.get("rev") else blocks)
+        else:
+            trans.append(T)
     sheets = {"compartments": [dfc], "parameters": [pd.DataFrame(pars)], "transitions": trans}
     if len(types) > 1 or types[0] != "default":
         sheets["population types"] = [pd.DataFrame([{"code name": t, "description": "Type " + t} for t in types])]
